@@ -13,6 +13,9 @@ func main() {
 	switch os.Args[1] {
 	case "glob":
 		runGlob(os.Args[2:])
+	case "parser":
+		setupLogger()
+		runParser(os.Args[2:])
 	default:
 		fmt.Fprintln(os.Stderr, "unknown engine", os.Args[1])
 		os.Exit(2)
